@@ -89,6 +89,17 @@ def main(tier, seed, replay=None):
                 opts, api, fam = {}, "validate", "shape sets (qualified siblings, shared references)"
             elif r < 0.44:
                 c = LV.gen_case(rng)
+                if rng.random() < 0.5:
+                    # value sets whose members are equal 'up to something' the component normalises (language tags that differ
+                    # in case, numerals of different datatypes): which member is met first is a matter of set order
+                    fn_ = rng.choice([n_ for n_ in c["nodes"] if isinstance(n_, URIRef)])
+                    us = S.new_shape(EX.UL, ("pred", str(EX.p)))
+                    us["targets"]["nodes"] = [fn_]
+                    us["comps"].append(("uniquelang", True))
+                    c["shapes"].append(us)
+                    for lit in rng.sample([Literal("colour", lang="en-GB"), Literal("color", lang="en-gb"), Literal("Farbe", lang="de"), Literal("couleur", lang="FR"),
+                                           Literal("teinte", lang="fr"), Literal("c", lang="EN-gb")], rng.randint(2, 5)):
+                        c["data"].add((fn_, EX.p, lit))
                 c["sg"] = S.shapes_to_rdf(c["shapes"])
                 opts, api, fam = {}, "validate", "core components"
             elif r < 0.62:
